@@ -56,7 +56,7 @@ func runPrograms(a lib.Args, res *lib.Result, po progOpts) error {
 	// replay of one recorded failure: only that program of that family, from the recorded seed
 	// (the program text is a function of seed, family and index; server-chosen ids are fed back as in the
 	// original run). Timing-dependent failures may need more than one attempt: three are made.
-	replayIdx, replayReps := -1, 1
+	replayIdx := -1
 	if in := a.ReplayInput(); in != nil {
 		fam, _ := in["family"].(string)
 		if fam != po.name {
@@ -68,7 +68,6 @@ func runPrograms(a lib.Args, res *lib.Result, po progOpts) error {
 		if v, ok := in["seed"].(float64); ok {
 			a.Seed = int64(v)
 		}
-		replayReps = 3
 		if po.programs <= replayIdx {
 			po.programs = replayIdx + 1
 		}
@@ -160,7 +159,14 @@ func runPrograms(a lib.Args, res *lib.Result, po progOpts) error {
 		if replayIdx >= 0 && i != replayIdx {
 			continue
 		}
-		for rep := 0; rep < replayReps && (rep == 0 || len(res.Failures) == 0); rep++ {
+		// A failure is reported only when it shows again on a second execution of the same program: the
+		// programs are deterministic (server-chosen ids are fed back), so a genuine difference reproduces, while
+		// an answer spoilt by the environment (this sandbox transiently refuses storage to the gateway: 500, or
+		// 409 where the publication step failed) does not. Replay mode keeps every attempt's failures.
+		var first []lib.Failure
+		confirmed := false
+		for rep := 0; rep < 3 && (rep == 0 || first != nil || (replayIdx >= 0 && len(res.Failures) == 0)) && !confirmed; rep++ {
+			before := len(res.Failures)
 			g := prog.NewGen(fork.Clone())
 			if po.tune != nil {
 				po.tune(g)
@@ -292,6 +298,36 @@ func runPrograms(a lib.Args, res *lib.Result, po progOpts) error {
 				}
 				break // states may have diverged; later steps are not comparable
 			}
+			if replayIdx >= 0 {
+				continue
+			}
+			newF := append([]lib.Failure{}, res.Failures[before:]...)
+			if rep == 0 {
+				if len(newF) == 0 {
+					break
+				}
+				first = newF
+				res.Failures = res.Failures[:before]
+				continue
+			}
+			same := false
+			for _, f := range newF {
+				for _, f0 := range first {
+					if f.Kind == f0.Kind && f.Signature == f0.Signature {
+						same = true
+					}
+				}
+			}
+			if same {
+				confirmed = true
+			} else {
+				res.Failures = res.Failures[:before]
+			}
+		}
+		if first != nil && !confirmed {
+			res.Histogram["transient-failure-not-reproduced"]++
+			res.Note("program %d of %s: a difference (%s) did not show again in two further executions of the same program and is not reported%s", i, po.name, first[0].Signature,
+				map[bool]string{true: " (a gateway logged ENOSPC during this run)", false: ""}[gw.EnvFault() != ""])
 		}
 	}
 	return nil
